@@ -32,7 +32,7 @@ fn domain(s: &EnumSpec) -> bool {
 
 pub fn programs(tier: Tier) -> ProgramSet {
     let c = AlphaCfg {
-        pool: if tier == Tier::Quick { vec!["x", "Xy", "XY", "é", "", "1"] } else { vec!["x", "xy", "Xy", "XY", "é", "", "1", "-", "ab", "AB", "x1", "Aa", "aa"] },
+        pool: if tier == Tier::Quick { vec!["x", "Xy", "XY", "é", "", "1", "ééééé"] } else { vec!["x", "xy", "Xy", "XY", "é", "", "1", "-", "ab", "AB", "x1", "Aa", "aa", "ééééé", "Éa"] },
         pool_b: if tier == Tier::Quick { vec!["xy", "XY"] } else { vec!["xy", "XY", "x", ""] },
         kinds: false,
         disabled: true,
